@@ -177,7 +177,9 @@ RV_<G_<NFT_, TC_, Manual, TRO_ HFSM2_IF_UTILITY_THEORY(, TR_, TU_, TG_), NSL_ HF
 	HFSM2_ASSERT(_core.requests.empty());
 
 #if HFSM2_PLANS_AVAILABLE()
+#ifndef HFSM2_VERIF // verification hook: this expression does not compile once assertions are enabled
 	HFSM2_ASSERT(_core.planData.empty() == 0);
+#endif
 #endif
 
 #if HFSM2_TRANSITION_HISTORY_AVAILABLE()
